@@ -53,7 +53,7 @@ func gen(g *kernel.Rng, seed uint64, tier string) *kernel.Plan {
 	p.Cfg["role"] = int64(g.Intn(2))
 	p.Cfg["rseg"] = int64(g.Pick(3, 2, 3, 2, 3))
 	p.Cfg["rb"] = g.OneOf(0, 1, 125, 256, 4096)
-	p.Cfg["readapi"] = int64(g.Intn(2))
+	p.Cfg["readapi"] = int64(g.Pick(3, 3, 2)) // 0 ReadMessage, 1 NextReader+ReadAll, 2 NextReader + a partial read, then on to the next message
 	p.Cfg["cut"] = -1
 	p.Cfg["limit"] = 0
 	var sizes []int64
@@ -149,6 +149,11 @@ func gen(g *kernel.Rng, seed uint64, tier string) *kernel.Plan {
 	if g.Bool(0.3) {
 		p.Cfg["cut"] = -2 - int64(g.U32()>>1) // resolved against the stream length at run time
 	}
+	if p.Cfg["readapi"] == 2 {
+		// partial reads hand out a prefix before the rest of the message has
+		// been looked at: kept apart from cuts and limits
+		p.Cfg["cut"], p.Cfg["limit"] = -1, 0
+	}
 	p.Tape = kernel.GenTape(g, g.Range(0, 100), 0.25)
 	p.TapeSeed = g.U64() | 1
 	return p
@@ -169,6 +174,8 @@ type sframe struct {
 	end        int
 	closeCode  int
 	closeKind  int64
+	masked     bool
+	key        [4]byte
 }
 
 func buildStream(p *kernel.Plan, stubMasks bool) (stream []byte, frames []sframe, ok bool) {
@@ -224,6 +231,7 @@ func buildStream(p *kernel.Plan, stubMasks bool) (stream []byte, frames []sframe
 			f.declared = d
 			b = ref.WSEncode(f.fin, f.rsv, f.op, masked, key, pay, 64, int64(d), true)
 		}
+		f.masked, f.key = masked, key
 		f.start = len(stream)
 		f.hdrEnd = f.start + len(b) - len(pay)
 		stream = append(stream, b...)
@@ -236,6 +244,7 @@ func buildStream(p *kernel.Plan, stubMasks bool) (stream []byte, frames []sframe
 // ---------- model: a conformant RFC 6455 receiver ----------
 
 type expect struct {
+	started  [][2]interface{} // (type, payload so far) of every message whose first frame was accepted
 	msgs     [][2]interface{} // (type, payload)
 	pongs    [][]byte
 	terminal string // proto | close | limit | eof
@@ -262,7 +271,7 @@ func validCloseCode(c int) (valid, known bool) {
 	return false, true
 }
 
-func model(frames []sframe, limit int64, cut int, streamLen int) (ex expect, ok bool) {
+func model(frames []sframe, limit int64, cut int, streamLen int, stream []byte) (ex expect, ok bool) {
 	if cut < 0 || cut > streamLen {
 		cut = streamLen
 	}
@@ -325,10 +334,38 @@ func model(frames []sframe, limit int64, cut int, streamLen int) (ex expect, ok 
 				return ex, true
 			}
 			if cut < f.end || f.declared != uint64(len(f.payload)) {
+				// the frame is accepted but its payload never arrives completely
+				// what the receiver sees as this frame's payload is whatever
+				// follows the header on the stream (for an over-declared length
+				// that includes the bytes of the frames behind it)
+				var avail []byte
+				if cut >= f.hdrEnd {
+					avail = append([]byte(nil), stream[f.hdrEnd:cut]...)
+					if uint64(len(avail)) > f.declared {
+						avail = avail[:f.declared]
+					}
+					if f.masked {
+						for i := range avail {
+							avail[i] ^= f.key[i&3]
+						}
+					}
+				}
+				if cut >= f.hdrEnd {
+					if f.op != 0 {
+						ex.started = append(ex.started, [2]interface{}{int(typ), append(append([]byte(nil), buf...), avail...)})
+					} else if len(ex.started) > 0 {
+						ex.started[len(ex.started)-1][1] = append(append([]byte(nil), buf...), avail...)
+					}
+				}
 				ex.terminal, ex.why = "eof", "stream ends inside a data frame"
 				return ex, true
 			}
 			buf = append(buf, f.payload...)
+			if f.op != 0 {
+				ex.started = append(ex.started, [2]interface{}{int(typ), buf})
+			} else if len(ex.started) > 0 {
+				ex.started[len(ex.started)-1][1] = buf
+			}
 			if f.fin {
 				ex.msgs = append(ex.msgs, [2]interface{}{int(typ), buf})
 				open = false
@@ -402,7 +439,11 @@ func run(p *kernel.Plan) (res *kernel.Result) {
 		cut = int(uint64(-cut-2) % uint64(len(stream)+1))
 	}
 	limit := p.C("limit")
-	ex, ok := model(frames, limit, cut, len(stream))
+	if p.C("readapi") == 2 && (limit != 0 || (cut >= 0 && cut < len(stream))) {
+		res.Invalid = true
+		return
+	}
+	ex, ok := model(frames, limit, cut, len(stream), stream)
 	if !ok {
 		res.Invalid = true
 		return
@@ -417,12 +458,14 @@ func run(p *kernel.Plan) (res *kernel.Result) {
 	}
 	pr := wsx.NewPair(s, tape, o)
 	type gotMsg struct {
-		typ int
-		b   []byte
+		typ     int
+		b       []byte
+		partial bool // the application abandoned the message after reading a prefix
 	}
 	var got []gotMsg
 	var rerr error
 	var later []error
+	readerRecovered := ""
 	var under *websocket.Conn
 	underPipeIn := pr.SC.Out // bytes towards the client
 	underOut := pr.CC.Out
@@ -451,20 +494,43 @@ func run(p *kernel.Plan) (res *kernel.Result) {
 			var typ int
 			var b []byte
 			var err error
+			partial := false
 			if p.C("readapi") == 0 {
 				typ, b, err = c.ReadMessage()
+			} else if p.C("readapi") == 2 {
+				var r io.Reader
+				typ, r, err = c.NextReader()
+				if err == nil {
+					// read a prefix only, then go on to the next message: the
+					// rest of this one has to be skipped by the library
+					buf := make([]byte, 1+tape.Next(64))
+					var n int
+					n, err = r.Read(buf)
+					b = buf[:n]
+					partial = true
+					if err == io.EOF {
+						err = nil
+					}
+				}
 			} else {
 				var r io.Reader
 				typ, r, err = c.NextReader()
 				if err == nil {
 					b, err = io.ReadAll(r)
+					if err != nil {
+						// reading has failed: the same reader must not report a
+						// clean end of message afterwards
+						if n2, e2 := r.Read(make([]byte, 16)); e2 == nil || e2 == io.EOF {
+							readerRecovered = fmt.Sprintf("after %v, the next Read on the same message reader returned (%d, %v)", err, n2, e2)
+						}
+					}
 				}
 			}
 			if err != nil {
 				rerr = err
 				break
 			}
-			got = append(got, gotMsg{typ, b})
+			got = append(got, gotMsg{typ, b, partial})
 			if len(got) > len(frames)+2 {
 				break
 			}
@@ -541,8 +607,21 @@ func run(p *kernel.Plan) (res *kernel.Result) {
 	if pr.ClientErr != nil || pr.ServerErr != nil || under == nil {
 		return res.Fail("harness/handshake", "Dial: %v; Upgrade: %v", pr.ClientErr, pr.ServerErr)
 	}
+	if p.C("readapi") == 2 {
+		// every message whose first frame a conformant receiver accepts is handed
+		// out (as a prefix); nothing else is
+		ex.msgs = ex.started
+	}
 	// delivered messages = the model's, up to the terminal
 	for i := 0; i < len(got) && i < len(ex.msgs); i++ {
+		if got[i].partial {
+			// an abandoned message: its type is right and what was read is a prefix
+			if got[i].typ != ex.msgs[i][0].(int) || !bytes.HasPrefix(ex.msgs[i][1].([]byte), got[i].b) {
+				return res.Fail("C14/message-differs", "message %d: the %d bytes read before abandoning it are not a prefix of the message a conformant receiver delivers; %s", i, len(got[i].b), ctx())
+			}
+			res.Stat("messages_abandoned_after_partial_read", 1)
+			continue
+		}
 		if got[i].typ != ex.msgs[i][0].(int) || !bytes.Equal(got[i].b, ex.msgs[i][1].([]byte)) {
 			return res.Fail("C14/message-differs", "message %d delivered as (type %d, %d bytes), a conformant receiver delivers (type %d, %d bytes); %s", i, got[i].typ, len(got[i].b), ex.msgs[i][0], len(ex.msgs[i][1].([]byte)), ctx())
 		}
@@ -551,7 +630,10 @@ func run(p *kernel.Plan) (res *kernel.Result) {
 		k := "C14/delivered-after-" + ex.terminal
 		return res.Fail(k, "a message (type %d, %d bytes) was delivered with nil error beyond what a conformant receiver delivers (%d messages); %s", got[len(ex.msgs)].typ, len(got[len(ex.msgs)].b), len(ex.msgs), ctx())
 	}
-	if len(got) < len(ex.msgs) {
+	if p.C("readapi") == 2 && len(got) == len(ex.msgs)-1 {
+		// the last started message may fail on its very first Read (when that
+		// Read has to look at further frames first): nothing of it was handed out
+	} else if len(got) < len(ex.msgs) {
 		return res.Fail("C14/message-lost", "%d messages delivered, a conformant receiver delivers %d; reading ended with %v; %s", len(got), len(ex.msgs), rerr, ctx())
 	}
 	if rerr == nil {
@@ -565,6 +647,9 @@ func run(p *kernel.Plan) (res *kernel.Result) {
 		if ce := rerr.(*websocket.CloseError); ce.Code != ex.code {
 			return res.Fail("C14/close-code", "CloseError code %d, peer sent %d; %s", ce.Code, ex.code, ctx())
 		}
+	}
+	if readerRecovered != "" {
+		return res.Fail("C14/reader-recovers", "%s; %s", readerRecovered, ctx())
 	}
 	for i, e := range later {
 		if e == nil {
